@@ -25,11 +25,15 @@ static inline Bn value_of_code(const std::string& c) {
     if (c == "r-1") return Bn::sub(r, Bn(1)); if (c == "r") return r; if (c == "r+1") return Bn::add(r, Bn(1));
     if (c == "2r") return Bn::add(r, r); if (c == "2r+1") return Bn::add(Bn::add(r, r), Bn(1));
     if (c == "max") return Bn::sub(K().two256, Bn(1));
-    if (c == "2^255") return Bn(1).shl(255);
+    if (c.compare(0, 2, "2^") == 0) {   // 2^N, 2^N+M, 2^N-M : values whose set bits sit on or next to limb boundaries (64, 128, 192 ...)
+        char* e = nullptr; long n = strtol(c.c_str() + 2, &e, 10); Bn v = Bn(1).shl((int) n);
+        if (*e == '+') v = Bn::add(v, Bn(strtoull(e + 1, nullptr, 10))); else if (*e == '-') v = Bn::sub(v, Bn(strtoull(e + 1, nullptr, 10)));
+        return v;
+    }
     if (c.size() > 1 && c[0] == 'x') { std::vector<uint8_t> b = unhex(c.substr(1)); b.resize(32); return Bn::from_le(b.data(), 32); }
     return Bn((uint64_t) strtoull(c.c_str(), nullptr, 10));
 }
-static inline const std::vector<std::string>& value_codes() { static const std::vector<std::string> v = {"0", "1", "2", "3", "r-1", "r", "r+1", "2r", "2r+1", "max", "2^255"}; return v; }
+static inline const std::vector<std::string>& value_codes() { static const std::vector<std::string> v = {"0", "1", "2", "3", "r-1", "r", "r+1", "2r", "2r+1", "max", "2^255", "2^64", "2^64-1", "2^128", "2^128+5", "2^127+3", "2^192+7", "2^130+9", "2^232", "2^32", "2^96+1"}; return v; }
 
 // Thin typed wrappers (C++ view, reference paths) used by the models.
 struct W {
